@@ -73,6 +73,21 @@ def sigma():
             add(toks[0].type.name, lit)
     for t, s in _OPEN_CLASS:
         add(t, s)
+    # string prefixes the tokenizer accepts, grouped by their set of letters: per group the lower-case, the upper-case and (two
+    # letters) a permuted mixed-case spelling
+    groups = collections.defaultdict(list)
+    for p in sorted(getattr(T, "_all_string_prefixes", lambda: set())()):
+        if p:
+            groups[frozenset(p.lower())].append(p)
+    for g, ps in sorted(groups.items(), key=lambda kv: sorted(kv[0])):
+        low = sorted(q for q in ps if q.islower())
+        up = sorted(q for q in ps if q.isupper())
+        mixed = sorted(q for q in ps if not q.islower() and not q.isupper())
+        for q in (low[:1] + up[-1:] + mixed[-1:]):
+            if "f" in g:
+                add("FSTRING_START", q + "'")
+            else:
+                add("STRING", q + "'" + "".join(sorted(g)) + "'")
     _SIGMA = out
     return out
 
